@@ -49,6 +49,10 @@ struct Cfg {
     sharded: bool,
     /// what the two calls are, see `spec`
     variant: u8,
+    /// the topology event of the run: 0 = a third node joins (`add`), 1 = node 1 is down from the start and comes back
+    /// (`up`), 2 = node 1 is rejected by the host filter at first and accepted later (`enable`), 3 = node 1 changes its
+    /// rack, so the driver re-creates it (`rerack`). 1..3 happen in every run (default step before `end`).
+    topo: u8,
     kills: u32,
     adds: u32,
     naks: u32,
@@ -94,8 +98,11 @@ impl Cfg {
     fn repeat(&self, k: usize) -> bool {
         k > 0 && self.ident(k) == self.ident(k - 1)
     }
+    fn topo_name(&self) -> &'static str {
+        ["add", "up", "enable", "rerack"][self.topo as usize]
+    }
     fn json(&self) -> Value {
-        json!({"pool": self.pool, "calls": self.calls, "sharded": self.sharded, "variant": self.variant, "kills": self.kills, "adds": self.adds, "naks": self.naks, "max_steps": self.max_steps})
+        json!({"pool": self.pool, "calls": self.calls, "sharded": self.sharded, "variant": self.variant, "topo": self.topo, "kills": self.kills, "adds": self.adds, "naks": self.naks, "max_steps": self.max_steps})
     }
     fn from_json(v: &Value) -> Cfg {
         Cfg {
@@ -103,6 +110,7 @@ impl Cfg {
             calls: v["calls"].as_u64().unwrap_or(1) as usize,
             sharded: v["sharded"].as_bool().unwrap_or(false),
             variant: v["variant"].as_u64().unwrap_or(0) as u8,
+            topo: v["topo"].as_u64().unwrap_or(0) as u8,
             kills: v["kills"].as_u64().unwrap_or(1) as u32,
             adds: v["adds"].as_u64().unwrap_or(1) as u32,
             naks: v["naks"].as_u64().unwrap_or(0) as u32,
@@ -125,6 +133,12 @@ struct MConn {
     acked: Option<usize>,
     /// the USE of call k was answered with an error on this connection
     nak: Option<usize>,
+    /// belongs to a pool the driver is about to drop (node re-created); closed by the client once the new state is published
+    retiring: bool,
+    /// node is 'down': the TCP connection was accepted but nothing has been read; `refuse` resets it, `up` lets it proceed
+    accept_parked: Option<u64>,
+    /// accepted connection let through: its STARTUP has yet to arrive
+    hs_expected: bool,
 }
 impl MConn {
     fn name(&self) -> String {
@@ -177,6 +191,12 @@ struct World {
     raw_parked: Option<u64>,
     /// per node: some connection has been published by its pool at least once
     first_pooled: [bool; 3],
+    listening: [bool; 3],
+    /// node 1 refuses connections (every attempt of the driver is parked at accept and reset by a `refuse` step)
+    down: Arc<std::sync::atomic::AtomicBool>,
+    refusals_left: u32,
+    filter_open: Arc<std::sync::atomic::AtomicBool>,
+    refreshes: Vec<tokio::task::JoinHandle<()>>,
     snapshot: Vec<usize>,
     started: usize,
     /// per call: 0 = not returned, 1 = returned Ok, 2 = returned Err (written by the calling task)
@@ -206,12 +226,19 @@ impl World {
         cluster.script(Script::new(STMT_PREFIX).prefix().reply(|ctx| {
             if ctx.keyspace.is_none() { Reply::error(mockcluster::wire::ErrorBody::invalid("No keyspace has been specified. USE a keyspace, or explicitly specify keyspace.tablename")) } else { Reply::void() }
         }));
-        let sb = SessionBuilder::new().known_node(cluster.contact_point(0)).pool_size(PoolSize::PerShard(NonZeroUsize::new(cfg.pool).unwrap()))
+        let filter_open = Arc::new(std::sync::atomic::AtomicBool::new(cfg.topo != 2));
+        let sb = SessionBuilder::new()
+            .known_node(cluster.contact_point(0))
+            .host_filter(Arc::new(FlipFilter { host: cluster.host_id(1), open: filter_open.clone() })).pool_size(PoolSize::PerShard(NonZeroUsize::new(cfg.pool).unwrap()))
             // the pool bounds the USE fan-out by the connection timeout (default 5 s): parked answers must not trip it
             .connection_timeout(Duration::from_secs(300));
         let session = Arc::new(sb.build().await.map_err(|e| stuck(format!("session did not come up: {e}")))?);
         let targets = vec![cfg.pool, if cfg.sharded { 2 * cfg.pool } else { cfg.pool }, cfg.pool];
+        let known = vec![true, cfg.topo != 2, false];
         for (n, want) in targets.iter().enumerate().take(2) {
+            if !known[n] {
+                continue;
+            }
             cluster
                 .wait_conns(&format!("node {n}: {want} ready pool connections"), mockcluster::DEADLINE, |cs| {
                     (cs.iter().filter(|c| c.node == n && c.open && c.ready && c.registered.is_empty()).count() >= *want).then_some(())
@@ -219,13 +246,23 @@ impl World {
                 .await
                 .map_err(stuck)?;
         }
+        let down = Arc::new(std::sync::atomic::AtomicBool::new(cfg.topo == 1));
+        if cfg.topo == 1 {
+            // node 1 goes down before anything else happens: its connections are reset and every further attempt of the
+            // pool is parked at accept (visible to the explorer) until it is refused (reset) or the node comes back
+            let d = down.clone();
+            cluster.hold(move |a| a.is_accept() && a.node == 1 && d.load(Ordering::SeqCst));
+            for c in cluster.open_conns(Some(1)) {
+                cluster.close_conn(c.id, CloseKind::Rst).await;
+            }
+        }
         let mut conns = Vec::new();
         let mut ords: BTreeMap<usize, usize> = BTreeMap::new();
         let mut infos = cluster.open_conns(None);
         infos.sort_by_key(|c| (c.node, c.id));
         for c in infos.iter().filter(|c| c.ready && c.registered.is_empty()) {
             let o = ords.entry(c.node).or_insert(0);
-            conns.push(MConn { id: c.id, node: c.node, ord: *o, alive: true, hs_parked: None, use_parked: None, pooled: true, needs_sync: true, last_use_seen: None, acked: None, nak: None });
+            conns.push(MConn { id: c.id, node: c.node, ord: *o, alive: true, hs_parked: None, use_parked: None, pooled: true, needs_sync: true, last_use_seen: None, acked: None, nak: None, retiring: false, accept_parked: None, hs_expected: false });
             *o += 1;
         }
         let mut w = World {
@@ -233,14 +270,19 @@ impl World {
             cluster,
             session,
             conns,
-            known: vec![true, true, false],
+            known,
             targets,
             current: None,
             inflight: None,
             pending: None,
             raw_wait: None,
             raw_parked: None,
-            first_pooled: [true, true, false],
+            first_pooled: [true, cfg.topo != 2, false],
+            listening: [true, true, true],
+            down: down.clone(),
+            refusals_left: 2,
+            filter_open,
+            refreshes: Vec::new(),
             snapshot: Vec::new(),
             started: 0,
             flags: Arc::new([AtomicU8::new(0), AtomicU8::new(0)]),
@@ -343,13 +385,23 @@ impl World {
 
     async fn expect_new_conn(&mut self, node: usize) -> Result<(), Fail> {
         let known: HashSet<u64> = self.conns.iter().map(|c| c.id).collect();
+        if node == 1 && self.down.load(Ordering::SeqCst) {
+            let a = self
+                .cluster
+                .wait_held("a connection attempt to the node that is down", |a| a.node == node && a.is_accept() && !known.contains(&a.conn))
+                .await
+                .map_err(stuck)?;
+            let ord = self.conns.iter().filter(|c| c.node == node).count();
+            self.conns.push(MConn { id: a.conn, node, ord, alive: true, hs_parked: None, use_parked: None, pooled: false, needs_sync: false, last_use_seen: None, acked: None, nak: None, retiring: false, accept_parked: Some(a.id), hs_expected: false });
+            return Ok(());
+        }
         let a = self
             .cluster
             .wait_held(&format!("a new connection to node {node} reaching STARTUP"), |a| a.node == node && a.is_startup_response() && !known.contains(&a.conn))
             .await
             .map_err(stuck)?;
         let ord = self.conns.iter().filter(|c| c.node == node).count();
-        self.conns.push(MConn { id: a.conn, node, ord, alive: true, hs_parked: Some(a.id), use_parked: None, pooled: false, needs_sync: false, last_use_seen: None, acked: None, nak: None });
+        self.conns.push(MConn { id: a.conn, node, ord, alive: true, hs_parked: Some(a.id), use_parked: None, pooled: false, needs_sync: false, last_use_seen: None, acked: None, nak: None, retiring: false, accept_parked: None, hs_expected: false });
         Ok(())
     }
 
@@ -358,7 +410,7 @@ impl World {
         loop {
             let mut progressed = false;
             for c in &self.conns {
-                if c.pooled {
+                if c.pooled && !c.retiring {
                     self.first_pooled[c.node] = true;
                 }
             }
@@ -379,18 +431,40 @@ impl World {
             }
             // the cluster worker publishes a new node only after its pool served its first connection; until then
             // it does not pick up use_keyspace requests
-            let blocked = self.known[2] && !self.first_pooled[2];
+            let blocked = (0..3).any(|n| self.known[n] && !self.first_pooled[n]);
+            if !blocked {
+                // the new cluster state is out: the pools of re-created nodes are dropped, their connections closed by the client
+                for i in 0..self.conns.len() {
+                    if self.conns[i].retiring && self.conns[i].alive {
+                        let id = self.conns[i].id;
+                        self.cluster
+                            .wait_entry(&format!("client closes connection {} of the dropped pool", self.conns[i].name()), 0, |e| e.conn == id && matches!(e.kind, mockcluster::LogKind::Closed { .. }))
+                            .await
+                            .map_err(stuck)?;
+                        self.conns[i].alive = false;
+                        progressed = true;
+                    }
+                }
+            }
             if !blocked {
                 if let Some((k, h)) = self.pending.take() {
                     self.current = Some(k);
-                    self.snapshot = (0..self.conns.len()).filter(|&i| self.conns[i].alive && self.conns[i].pooled).collect();
+                    self.snapshot = (0..self.conns.len()).filter(|&i| self.conns[i].alive && self.conns[i].pooled && !self.conns[i].retiring).collect();
                     self.inflight = Some((k, h));
                     progressed = true;
                 }
             }
             for i in 0..self.conns.len() {
                 let c = self.conns[i].clone();
-                if !c.alive || c.hs_parked.is_some() || c.use_parked.is_some() {
+                if !c.alive || c.retiring || c.hs_parked.is_some() || c.use_parked.is_some() || c.accept_parked.is_some() {
+                    continue;
+                }
+                if c.hs_expected {
+                    let id = c.id;
+                    let a = self.cluster.wait_held(&format!("STARTUP on connection {}", c.name()), |a| a.conn == id && a.is_startup_response()).await.map_err(stuck)?;
+                    self.conns[i].hs_parked = Some(a.id);
+                    self.conns[i].hs_expected = false;
+                    progressed = true;
                     continue;
                 }
                 if c.pooled {
@@ -422,11 +496,11 @@ impl World {
                 }
             }
             for n in 0..3 {
-                if !self.known[n] {
+                if !self.known[n] || !self.listening[n] {
                     continue;
                 }
-                let opening = self.conns.iter().filter(|c| c.node == n && c.alive && !c.pooled).count();
-                let pooled = self.conns.iter().filter(|c| c.node == n && c.alive && c.pooled).count();
+                let opening = self.conns.iter().filter(|c| c.node == n && c.alive && !c.retiring && !c.pooled).count();
+                let pooled = self.conns.iter().filter(|c| c.node == n && c.alive && !c.retiring && c.pooled).count();
                 if opening == 0 && pooled < self.targets[n] {
                     self.expect_new_conn(n).await?;
                     progressed = true;
@@ -462,7 +536,7 @@ impl World {
     fn state_string(&self) -> String {
         let mut s = format!("raw={}{} pend={:?} cur={:?} infl={:?} started={} k={} a={} n={};", self.raw_wait.is_some() as u8, self.raw_parked.is_some() as u8, self.pending.as_ref().map(|x| x.0), self.current, self.inflight.as_ref().map(|x| x.0), self.started, self.kills_left, self.adds_left, self.naks_left);
         for c in &self.conns {
-            s.push_str(&format!("{}:{}{}{}{:?}{:?}{:?};", c.name(), c.alive as u8, c.hs_parked.is_some() as u8, c.pooled as u8, c.use_parked.map(|u| u.1), c.acked, c.nak));
+            s.push_str(&format!("{}:{}{}{}{}{}{:?}{:?}{:?};", c.name(), c.accept_parked.is_some() as u8, c.retiring as u8, c.alive as u8, c.hs_parked.is_some() as u8, c.pooled as u8, c.use_parked.map(|u| u.1), c.acked, c.nak));
         }
         s
     }
@@ -476,8 +550,8 @@ impl World {
             // which connection carries the raw statement is the client's choice: while its answer is parked only
             // steps that do not depend on that connection's identity are offered
             v.push("ack-raw".to_string());
-            if self.stats.steps < self.cfg.max_steps && self.adds_left > 0 {
-                v.push("add".to_string());
+            if self.stats.steps < self.cfg.max_steps && self.adds_left > 0 && self.cfg.topo != 3 {
+                v.push(self.cfg.topo_name().to_string());
             }
             return v;
         }
@@ -493,20 +567,38 @@ impl World {
         if self.inflight.is_none() && self.pending.is_none() && self.raw_wait.is_none() && self.started < self.cfg.calls {
             v.push("call".to_string());
         }
+        // a re-created node: only between calls and when none of its connections is still being set up
+        let topo_ok = self.adds_left > 0
+            && (self.cfg.topo != 3 || (self.inflight.is_none() && self.pending.is_none() && self.raw_wait.is_none() && self.conns.iter().all(|c| c.node != 1 || !c.alive || c.pooled)));
+        let mut topo_is_default = false;
         if v.is_empty() {
-            v.push("end".to_string());
+            if self.cfg.topo != 0 && topo_ok {
+                // down/up, enable and rerack happen in every run
+                v.push(self.cfg.topo_name().to_string());
+                topo_is_default = true;
+            } else {
+                v.push("end".to_string());
+            }
         }
         if self.stats.steps < self.cfg.max_steps {
             if self.kills_left > 0 {
                 for &i in &order {
                     let c = &self.conns[i];
-                    if c.alive && c.pooled {
+                    if c.alive && c.pooled && !c.retiring {
                         v.push(format!("kill:{}", c.name()));
                     }
                 }
             }
-            if self.adds_left > 0 {
-                v.push("add".to_string());
+            if topo_ok && !topo_is_default {
+                v.push(self.cfg.topo_name().to_string());
+            }
+            if self.refusals_left > 0 {
+                for &i in &order {
+                    let c = &self.conns[i];
+                    if c.alive && c.accept_parked.is_some() {
+                        v.push(format!("refuse:{}", c.name()));
+                    }
+                }
             }
             if self.naks_left > 0 {
                 for &i in &order {
@@ -564,6 +656,39 @@ impl World {
             }
             // the driver now re-propagates the acknowledged name through the cluster worker
             self.pending = self.raw_wait.take();
+        } else if action == "up" {
+            self.adds_left -= 1;
+            self.down.store(false, Ordering::SeqCst);
+            for c in self.conns.iter_mut().filter(|c| c.alive && c.accept_parked.is_some()) {
+                let id = c.accept_parked.take().unwrap();
+                if !self.cluster.release(id) {
+                    return Err(stuck("parked accept vanished".into()));
+                }
+                c.hs_expected = true;
+            }
+        } else if let Some(name) = action.strip_prefix("refuse:") {
+            let i = self.conn_by_name(name);
+            self.refusals_left -= 1;
+            let id = self.conns[i].accept_parked.take().unwrap();
+            self.cluster.discard(id);
+            self.conns[i].alive = false;
+        } else if action == "enable" || action == "rerack" {
+            self.adds_left -= 1;
+            if action == "enable" {
+                self.filter_open.store(true, Ordering::SeqCst);
+                self.known[1] = true;
+            } else {
+                self.cluster.set_location(1, "dc1", "r9");
+                for c in self.conns.iter_mut().filter(|c| c.node == 1 && c.alive) {
+                    c.retiring = true;
+                }
+                self.first_pooled[1] = false;
+            }
+            // the refresh returns only after the new node's pool has served its first connection
+            let s = self.session.clone();
+            self.refreshes.push(tokio::spawn(async move {
+                let _ = s.refresh_metadata().await;
+            }));
         } else if action == "add" {
             self.adds_left -= 1;
             let n = self.cluster.add_node(NodeSpec::new("dc1", "r3", vec![7_000_000_000_000_000_000])).await.map_err(stuck)?;
@@ -594,7 +719,16 @@ impl World {
             let i = self.conn_by_name(name);
             self.naks_left -= 1;
             let (id, k) = self.conns[i].use_parked.take().unwrap();
-            if !self.cluster.release_with(id, Reply::error(mockcluster::wire::ErrorBody::invalid("mock: this node refuses the keyspace"))) {
+            // one refusal per family, rotating over connections and calls: three error codes and a response of the wrong
+            // kind. (A SetKeyspace naming ANOTHER keyspace is covered by the names leg only: a server that answers so has
+            // moved the connection, which no later request can be blamed for.)
+            let refusal = match (k + self.conns[i].node + self.conns[i].ord + self.cfg.variant as usize) % 4 {
+                0 => Reply::error(mockcluster::wire::ErrorBody::invalid("mock: this node refuses the keyspace")),
+                1 => Reply::error(mockcluster::wire::ErrorBody::overloaded("mock: overloaded")),
+                2 => Reply::error(mockcluster::wire::ErrorBody::server_error("mock: internal error")),
+                _ => Reply::void(),
+            };
+            if !self.cluster.release_with(id, refusal) {
                 return Err(stuck(format!("parked USE answer of {name} vanished")));
             }
             self.conns[i].nak = Some(k);
@@ -751,6 +885,9 @@ async fn run(cfg: Cfg, ch: &mut Chooser) -> Result<RunStats, Fail> {
     if let Some((_, h)) = w.raw_wait.take() {
         h.abort();
     }
+    for h in w.refreshes.drain(..) {
+        h.abort();
+    }
     w.cluster.shutdown().await;
     res?;
     if !unexpected.is_empty() {
@@ -764,6 +901,17 @@ fn run_blocking(cfg: Cfg, ch: &mut Chooser) -> Result<RunStats, Fail> {
     let r = rt.block_on(run(cfg, ch));
     rt.shutdown_timeout(Duration::from_millis(200));
     r
+}
+
+/// Host filter that rejects one host until the harness opens it.
+struct FlipFilter {
+    host: uuid::Uuid,
+    open: Arc<std::sync::atomic::AtomicBool>,
+}
+impl scylla::policies::host_filter::HostFilter for FlipFilter {
+    fn accept(&self, peer: &scylla::cluster::metadata::Peer) -> bool {
+        peer.host_id != self.host || self.open.load(Ordering::SeqCst)
+    }
 }
 
 static PANICS: Mutex<Vec<String>> = Mutex::new(Vec::new());
@@ -795,23 +943,31 @@ fn main() {
     for calls in [1usize, 2] {
         for pool in [1usize, 2] {
             // error answers (nak): in the single-connection pools (and the sharded configuration of the thorough tier)
-            cfgs.push(Cfg { pool, calls, sharded: false, variant: 0, kills: 1, adds: 1, naks: if pool == 1 { 1 } else { 0 }, max_steps: 14 });
+            // the largest configuration (pools of 2, two calls) goes without the joining node (covered by the other three)
+            let adds = if pool == 2 && calls == 2 { 0 } else { 1 };
+            cfgs.push(Cfg { pool, calls, sharded: false, variant: 0, topo: 0, kills: 1, adds, naks: if pool == 1 { 1 } else { 0 }, max_steps: 14 });
         }
     }
     // the same name twice (first round may fail with error answers on some or all connections), and the same name
     // with the other case-sensitivity flag
-    cfgs.insert(1, Cfg { pool: 1, calls: 2, sharded: false, variant: 1, kills: 1, adds: 1, naks: 2, max_steps: 14 });
-    cfgs.push(Cfg { pool: 1, calls: 2, sharded: false, variant: 2, kills: 1, adds: 1, naks: if thorough { 1 } else { 0 }, max_steps: 14 });
+    cfgs.insert(1, Cfg { pool: 1, calls: 2, sharded: false, variant: 1, topo: 0, kills: 1, adds: 1, naks: 2, max_steps: 14 });
+    cfgs.push(Cfg { pool: 1, calls: 2, sharded: false, variant: 2, topo: 0, kills: 1, adds: 1, naks: if thorough { 1 } else { 0 }, max_steps: 14 });
     // mixed-case / lower-case twin keyspaces, set through raw `USE` statements and through the API
-    cfgs.insert(2, Cfg { pool: 1, calls: 2, sharded: false, variant: 3, kills: 1, adds: 1, naks: 0, max_steps: 14 });
-    cfgs.push(Cfg { pool: 1, calls: 2, sharded: false, variant: 4, kills: 1, adds: 1, naks: 0, max_steps: 14 });
+    cfgs.insert(2, Cfg { pool: 1, calls: 2, sharded: false, variant: 3, topo: 0, kills: 1, adds: 1, naks: 0, max_steps: 14 });
+    cfgs.push(Cfg { pool: 1, calls: 2, sharded: false, variant: 4, topo: 0, kills: 1, adds: 1, naks: 0, max_steps: 14 });
+    // node histories: down at USE time and back later; accepted by the host filter later; re-created after a rack change
+    for topo in [1u8, 2, 3] {
+        cfgs.push(Cfg { pool: 1, calls: 2, sharded: false, variant: 0, topo, kills: if thorough { 1 } else { 0 }, adds: 1, naks: 0, max_steps: 14 });
+    }
+    // per-shard pool on a 2-shard node (shard-aware port)
+    cfgs.push(Cfg { pool: 1, calls: 1, sharded: true, variant: 0, topo: 0, kills: 1, adds: 0, naks: 0, max_steps: 14 });
     if thorough {
-        cfgs.push(Cfg { pool: 1, calls: 2, sharded: false, variant: 5, kills: 1, adds: 1, naks: 1, max_steps: 14 });
-        cfgs.push(Cfg { pool: 1, calls: 2, sharded: false, variant: 6, kills: 1, adds: 1, naks: 1, max_steps: 14 });
-        cfgs.push(Cfg { pool: 2, calls: 2, sharded: false, variant: 3, kills: 1, adds: 0, naks: 0, max_steps: 14 });
-        cfgs.push(Cfg { pool: 2, calls: 2, sharded: false, variant: 1, kills: 1, adds: 0, naks: 2, max_steps: 14 });
-        cfgs.push(Cfg { pool: 1, calls: 2, sharded: true, variant: 0, kills: 1, adds: 1, naks: 1, max_steps: 14 });
-        cfgs.push(Cfg { pool: 1, calls: 2, sharded: false, variant: 0, kills: 2, adds: 1, naks: 0, max_steps: 16 });
+        cfgs.push(Cfg { pool: 1, calls: 2, sharded: false, variant: 5, topo: 0, kills: 1, adds: 1, naks: 1, max_steps: 14 });
+        cfgs.push(Cfg { pool: 1, calls: 2, sharded: false, variant: 6, topo: 0, kills: 1, adds: 1, naks: 1, max_steps: 14 });
+        cfgs.push(Cfg { pool: 2, calls: 2, sharded: false, variant: 3, topo: 0, kills: 1, adds: 0, naks: 0, max_steps: 14 });
+        cfgs.push(Cfg { pool: 2, calls: 2, sharded: false, variant: 1, topo: 0, kills: 1, adds: 0, naks: 2, max_steps: 14 });
+        cfgs.push(Cfg { pool: 1, calls: 2, sharded: true, variant: 0, topo: 0, kills: 1, adds: 1, naks: 0, max_steps: 14 });
+        cfgs.push(Cfg { pool: 1, calls: 2, sharded: false, variant: 0, topo: 0, kills: 2, adds: 1, naks: 0, max_steps: 16 });
     }
     if let Some(only) = r.args.extra_value("--only-cfg").and_then(|s| s.parse::<usize>().ok()) {
         cfgs = vec![cfgs[only]];
@@ -819,10 +975,15 @@ fn main() {
     let states: Mutex<HashSet<u64>> = Mutex::new(HashSet::new());
     let traces: Mutex<BTreeSet<String>> = Mutex::new(BTreeSet::new());
     let audited = AtomicU64::new(0);
-    let mut total_exec = 0u64;
-    let mut exhaustive = true;
-    for cfg in &cfgs {
-        let opts = DfsOpts { bound, max_executions: 200_000, wall: Duration::from_secs(if thorough { 540 } else { 45 }), jobs: r.args.jobs.min(16), stop_at_first: true };
+    let total_exec = AtomicU64::new(0);
+    let exhaustive = std::sync::atomic::AtomicBool::new(true);
+    // executions are latency-bound (refill delays, reconnect back-off), so two lanes of configurations run side by side
+    let run_lane = |lane: &[Cfg], jobs: usize| {
+      for cfg in lane {
+        if r.violation_count() > 0 {
+            break;
+        }
+        let opts = DfsOpts { bound, max_executions: 200_000, wall: Duration::from_secs(if thorough { 240 } else { 45 }), jobs, stop_at_first: true };
         let rr = &r;
         let res = vcore::dfs::explore(&opts, |ch| {
             let out = run_blocking(*cfg, ch);
@@ -856,11 +1017,11 @@ fn main() {
                     for a in &st.trace {
                         rr.counters.add(&format!("step_{}", a.split(':').next().unwrap()), 1);
                     }
-                    if st.trace.iter().any(|a| a.starts_with("kill") || a == "add") && st.strict_frames > 0 {
+                    if st.trace.iter().any(|a| a.starts_with("kill") || ["add", "up", "enable", "rerack"].contains(&a.as_str())) && st.strict_frames > 0 {
                         rr.nontrivial(1);
                     }
                     states.lock().unwrap().extend(st.states.iter().copied());
-                    if st.trace.iter().any(|a| a.starts_with("kill")) && st.trace.iter().any(|a| a == "add") && st.calls_ok as usize == cfg.calls {
+                    if st.trace.iter().any(|a| a.starts_with("kill")) && st.trace.iter().any(|a| ["add", "up", "enable", "rerack"].contains(&a.as_str())) && st.calls_ok as usize == cfg.calls {
                         rr.sample(json!({"cfg": cfg.json(), "choices": ch.choices(), "steps": st.trace, "requests": st.requests, "frames_checked_strict": st.strict_frames}));
                     }
                     let key = format!("{:?}|{:?}", cfg.json().to_string(), st.trace);
@@ -901,23 +1062,30 @@ fn main() {
             vcore::machinery_error(&format!("replay divergence: {:?}", res.divergences));
         }
         if let Some(c) = &res.capped {
-            exhaustive = false;
+            exhaustive.store(false, Ordering::Relaxed);
             r.note(&format!("capped_cfg_pool{}_calls{}", cfg.pool, cfg.calls), json!(c));
         }
-        total_exec += res.executions;
+        total_exec.fetch_add(res.executions, Ordering::Relaxed);
         if r.violation_count() > 0 {
             println!("cfg {} bound {} -> {} executions, stopping at the first violation", cfg.json(), bound, res.executions);
             break;
         }
         println!("cfg {} bound {} -> {} executions, longest {} choice points, {} violations", cfg.json(), bound, res.executions, res.max_points, res.violations.len());
-    }
+      }
+    };
+    let (lane_b, lane_a): (Vec<Cfg>, Vec<Cfg>) = cfgs.iter().partition(|c| c.topo != 0 || c.sharded || c.kills > 1 || c.variant >= 5);
+    let jobs = r.args.jobs.min(16);
+    std::thread::scope(|s| {
+        s.spawn(|| run_lane(&lane_b, if thorough { 10 } else { 6 }));
+        run_lane(&lane_a, jobs);
+    });
     r.states.store(states.lock().unwrap().len() as u64, Ordering::Relaxed);
     r.traces_validated.store(audited.load(Ordering::Relaxed), Ordering::Relaxed);
-    r.note("executions", json!(total_exec));
+    r.note("executions", json!(total_exec.load(Ordering::Relaxed)));
     r.note("distinct_step_sequences", json!(traces.lock().unwrap().len()));
     r.note("deviation_bound_completed", json!(bound));
     r.note("configurations", json!(cfgs.iter().map(|c| c.json()).collect::<Vec<_>>()));
-    r.set_exhaustive(exhaustive);
+    r.set_exhaustive(exhaustive.load(Ordering::Relaxed));
     r.set_rule("executions containing a connection kill or a node addition in which at least one request frame was checked against a single required keyspace");
     r.assume("client-internal task scheduling is whatever the OS produces (engine E-MOCK); the oracle holds under every client schedule");
     r.assume("default step = release the first parked action in (node, connection) order, else start the next call; every other enabled action costs one deviation");
